@@ -169,8 +169,10 @@ def compare_runs(spec, run0, run1, t0, fit, lin, vmap, cmap, fails, info, kind, 
             worst = (err, cls, f"junction {j}, interface {path[:3]}..{path[-1]} ({len(path)} points, {cls}): pair ({a[0]:.9g}, {a[1]:.9g}) "
                                f"should map to ({ea[0]:.9g}, {ea[1]:.9g}), found ({b[0]:.9g}, {b[1]:.9g}); |diff| {err:.3g} > {C_TOL[cls]:g}")
     if worst is not None:
-        if worst[1] == "flat" and worst[0] > 0.9:
-            emit(f"coefficient-pairs:flat-perpendicular:{fit}", worst[2] + f"  [{kind}]")     # fitted centre on the line in one presentation
+        if worst[1] == "flat" and worst[0] > 0.05:
+            emit(f"coefficient-pairs:flat-fit-breakdown:{fit}", worst[2] + f"  [{kind}]")     # e.g. fitted centre on the line in one presentation
+        elif kind.endswith("-far"):
+            emit(f"coefficient-pairs:far-translation:{fit}", worst[2] + f"  [{kind}, {worst[1]}]")
         else:
             emit(f"coefficient-pairs:{kind}:{worst[1]}:{fit}", worst[2])
         return                                            # tensions / pressures would only repeat this
@@ -546,7 +548,7 @@ def _tissue_case_b04(spec):
                                                                   f"cells ({npts}+ points per interface, true tensions assigned)"))
         # the whole pipeline (inferred tensions), when the tensions are determined and no sign forcing interferes
         f2 = []
-        run2 = try_run(spec, t, f2, fit=fit) if r_hand >= 0.9 else None
+        run2 = try_run(spec, t, f2, fit=fit)
         if run2 is not None and run2.rows and len(run2.cols) == len(run2.ibe):
             A, ok = S.analytic_matrix(tr, run2)
             uniq = ok and S.uniqueness(A)[0] and svals(S.aug_system(A)[0])[-1] > 1e-9 and A.shape[0] >= A.shape[1]
@@ -560,7 +562,9 @@ def _tissue_case_b04(spec):
                     r_pipe = float(np.corrcoef(qv, ap)[0, 1]) if qv.std() > 0 else float("nan")
                     info["r_pipe"] = r_pipe
                     info["count"]["correlation_pipeline_excluded_sign_forcing" if pe else "correlation_pipeline"] += 1
-                    if not r_pipe >= 0.9:
+                    if not r_hand >= 0.9:
+                        fails[-1]["detail"] += f"; with the tensions inferred by solve_stress r = {r_pipe:.4f}"
+                    elif not r_pipe >= 0.9:
                         if pe:
                             fails.append(_fail(spec, "correlation:pipeline:sign-forcing", f"Pearson r = {r_pipe:.4f} < 0.9 ({pe} ends satisfy the predicate)", key=KF_SIGN))
                         else:
@@ -645,7 +649,7 @@ _fit_for = S.pick_fit
 
 def cases_b06(tier, seed):
     rng = np.random.default_rng(seed + 606)
-    n = 600 if tier == "quick" else 8000
+    n = 600 if tier == "quick" else 5000
     out = []
     for i in range(n):
         u = rng.random()
@@ -696,7 +700,7 @@ def small_tissues():
 
 def cases_b07(tier, seed):
     rng = np.random.default_rng(seed + 707)
-    n_rand, n_all = (600, 8) if tier == "quick" else (7000, 60)
+    n_rand, n_all = (600, 8) if tier == "quick" else (4500, 40)
     out = []
 
     def tissue(small=False):
@@ -743,7 +747,7 @@ def cases_b07(tier, seed):
 
 def cases_b04(tier, seed):
     rng = np.random.default_rng(seed + 404)
-    n_turn, n_tis, n_or = (400, 500, 400) if tier == "quick" else (4000, 6000, 4500)
+    n_turn, n_tis, n_or = (400, 500, 400) if tier == "quick" else (3000, 3800, 2800)
     out = []
     for n in range(3, 18):                                     # grid: every n, turning up to 1.5
         for th in (0.0, 1e-3, 0.05, 0.4, 1.0, 1.5):
@@ -803,7 +807,7 @@ def _run_case(spec):
          bound="straight and Moebius equilibrium tissues and noisy tissues (two-point interfaces with noise 0.02..0.25, arcs with "
                "noise 0.01..0.03 mesh-edge lengths), whole and sub-tissues of the hexagonal patch / flower / 25-40-site Voronoi; "
                "transformation kinds translate (0.1..1e4 tissue sizes, any direction), rotate (uniform or a tangent 0..2e-3 rad "
-               "from an axis), reflect (with/without rotation), scale (1e-3..1e3), mixed; quick 600 pairs, thorough 8000")
+               "from an axis), reflect (with/without rotation), scale (1e-3..1e3), mixed; quick 600 pairs, thorough 5000")
 def run_b06(tier, seed):
     res, nr = S.run_all(cases_b06(tier, seed), _run_case, S._budget(tier, 3))
     return S.aggregate(res, nr,
@@ -819,9 +823,9 @@ def run_b06(tier, seed):
 
 
 @bounded("B07", ["C07"], "independence of vertex / edge / cell ids, cycle start and cell orientation",
-         bound="every non-empty orientation pattern (2^cells - 1) of 8 (quick) / 60 (thorough) random sub-tissues with <= 6 cells; "
+         bound="every non-empty orientation pattern (2^cells - 1) of 8 (quick) / 40 (thorough) random sub-tissues with <= 6 cells; "
                "random tissues (straight, Moebius, noisy; hexagonal patch / flower / Voronoi, whole and subsets) with random "
-               "renumbering (with and without gaps), cycle shifts, random flips and their combinations; quick ~900, thorough ~9500")
+               "renumbering (with and without gaps), cycle shifts, random flips and their combinations; quick ~900, thorough ~6000")
 def run_b07(tier, seed):
     res, nr = S.run_all(cases_b07(tier, seed), _run_case, S._budget(tier, 3))
     return S.aggregate(res, nr,
@@ -836,7 +840,7 @@ def run_b07(tier, seed):
                "turning 1e-3..1.5, radius 1e-2..1e3, position, sense, scale 1e-3..1e3); tissues: Moebius images (3..15 points, "
                "optionally resampled uniformly to 1..15 points) and straight tissues, whole / sub-tissues, random pose, random "
                "flipped cells, true tensions assigned by hand; orientation variants: flipped cells, reversed / permuted "
-               "construction order, shifted cycles; quick ~1390 cases, thorough ~14600")
+               "construction order, shifted cycles; quick ~1390 cases, thorough ~9700")
 def run_b04(tier, seed):
     res, nr = S.run_all(cases_b04(tier, seed), _run_case, S._budget(tier, 3))
     return S.aggregate(res, nr,
